@@ -400,3 +400,18 @@ func judgeModelFail(e *Env, f *model.Fail, reqs []wire.Req, failAt int, rulePref
 	}
 	e.Run.Violate(rulePrefix+f.Rule, feature, detail, wit)
 }
+
+// FarOffsets are positions far beyond any stored object at which sector or byte arithmetic of a
+// narrower integer type would wrap: 2048·2^31 (a signed 32-bit sector count), 2048·2^32, their
+// neighbours and small multiples, and some powers of two up to 2^62. Nothing is stored there, so the
+// only correct answers are "no bytes".
+func FarOffsets() []int64 {
+	var out []int64
+	for _, base := range []int64{1 << 42, 1 << 43, 3 << 42, 1 << 44, 5 << 43, 1 << 31 * 2352, 1 << 32 * 2352} {
+		for _, d := range []int64{-70000, -4096, -2049, -2048, -100, -1, 0, 1, 100, 2047, 2048, 4096, 65536} {
+			out = append(out, base+d)
+		}
+	}
+	out = append(out, 1<<40, 1<<48, 1<<52+1, 1<<53+1, 1<<62, 1<<62+2048, 1<<63-2049, 1<<63-2048, 1<<63-1)
+	return out
+}
